@@ -4,11 +4,11 @@ import json, os, shutil, glob
 V = os.path.dirname(os.path.dirname(os.path.abspath(__file__)))
 M = json.load(open(os.path.join(V, "seeded", "MATRIX.json")))
 B4 = {}
-for bn in ("BASELINE-R4.json", "BASELINE-R5.json", "BASELINE-R6.json"):
+for bn in ("BASELINE-R4.json", "BASELINE-R5.json", "BASELINE-R6.json", "BASELINE-R7.json"):
     if os.path.exists(os.path.join(V, "seeded", bn)):
         B4.update(json.load(open(os.path.join(V, "seeded", bn))))
 n = 0
-for d in sorted(glob.glob(os.path.join(V, "seeded", "candidates", "C*-*")) + glob.glob(os.path.join(V, "seeded", "candidates", "R2-*")) + glob.glob(os.path.join(V, "seeded", "candidates", "R3-*")) + glob.glob(os.path.join(V, "seeded", "candidates", "R4-*")) + glob.glob(os.path.join(V, "seeded", "candidates", "R5-*")) + glob.glob(os.path.join(V, "seeded", "candidates", "R6-*"))):
+for d in sorted(glob.glob(os.path.join(V, "seeded", "candidates", "C*-*")) + glob.glob(os.path.join(V, "seeded", "candidates", "R2-*")) + glob.glob(os.path.join(V, "seeded", "candidates", "R3-*")) + glob.glob(os.path.join(V, "seeded", "candidates", "R4-*")) + glob.glob(os.path.join(V, "seeded", "candidates", "R5-*")) + glob.glob(os.path.join(V, "seeded", "candidates", "R6-*")) + glob.glob(os.path.join(V, "seeded", "candidates", "R7-*"))):
     cid = os.path.basename(d)
     conf = os.path.join(d, "confirm.json")
     if not os.path.exists(conf):
